@@ -18,5 +18,6 @@ OBLIGATIONS = [
   O('C11.c-scalepath-zero', 'c11_args.cpp', 'harness_scalepath_zero', unwind=4, bound='all scales in +-1e6', desc='scale_error_i iff a scale is zero'),
   O('C11.c-booleanop-d-badprec', 'c11_args.cpp', 'harness_booleanop_d_badprec', replace=ENG, unwind=5, bound='all |precision|>8', desc='BooleanOp(PathsD) returns empty and never touches the engine'),
   O('C11.c-inflate-d-badprec', 'c11_args.cpp', 'harness_inflate_d_badprec', replace=OFF, unwind=5, bound='all |precision|>8, delta != 0', desc='InflatePaths(PathsD) returns empty and never touches the offsetter'),
+  O('C11.b-noclip-d', 'c11_args.cpp', 'harness_noclip_d', replace=MATH, unwind=19, timeout=300, bound='one concrete triangle, all fill rules, non-empty solution containers on entry, paths and tree overloads', desc='ClipperD::Execute(NoClip) returns true and empties both solutions'),
   O('C11.b-noclip', 'c11_args.cpp', 'harness_noclip', unwind=12, bound='one concrete triangle, all fill rules', desc='Execute(NoClip) returns true and clears both solutions'),
 ]
